@@ -198,7 +198,7 @@ theorem tie_mkdirConds : mkdirConds =
     "if child != nil",
     "if err != nil"] := rfl
 
-/-- Rename: name checks, ancestor locking, moved-into-itself, existing directory target (Model.C08_FS.doRename) -/
+/-- Rename: name checks, ancestor locking, moved-into-itself, existing directory target, same-entry test (Model.C08_FS.doRename) -/
 theorem tie_renameConds : renameConds =
     ["if oldname == \"\" || oldname == \".\" || oldname == \"..\"",
     "if err != nil",
@@ -213,9 +213,10 @@ theorem tie_renameConds : renameConds =
     "if locked[oldinode]",
     "if oldinode.FS() != cfs && newdirf.inode != olddirf.inode",
     "if existing != nil && existing.IsDir()",
-    "if err != nil"] := rfl
+    "if err != nil",
+    "if newdirf.inode == olddirf.inode && newname == oldname"] := rfl
 
-/-- Rename: error values in order; the final `nil, nil` deletes the old entry -/
+/-- Rename: error values in order; `oldinode, nil` keeps the entry when renamed onto itself (fix 100856b), the final `nil, nil` deletes the old entry -/
 theorem tie_renameReturns : renameReturns =
     ["ErrInvalidArgument",
     "fmt.Errorf(\"%q: %s\", olddir, err)",
@@ -228,6 +229,7 @@ theorem tie_renameReturns : renameReturns =
     "existing, ErrIsDirectory",
     "oldinode, nil",
     "oldinode, err",
+    "oldinode, nil",
     "nil, nil",
     "err"] := rfl
 
